@@ -20,6 +20,9 @@ PROPERTY = {
         }),
     ],
     "timeout": 900,
+    # functional-equivalence harnesses over safe Rust: CBMC's per-dereference pointer checks (thousands per harness)
+    # dominate the cost; panics, unwraps, index and arithmetic-overflow checks stay on.
+    "kani_args": ["--no-memory-safety-checks"],
     "kani": [Harness(f"c01_{t}", f"C01.native.{t}", "PROVED-C",
                      f"{t}: all values x all 20 native column types: Ok iff documented pair; bytes == be32(width) ++ big-endian value; mismatch writes nothing; type_check matrix; decode(encode(v)) == v bit for bit; wrong width / null rejected",
                      crate="scylla-cql-core", functions=[f"scylla-cql-core/src/serialize/value.rs:<{t} as SerializeValue>::serialize", f"scylla-cql-core/src/deserialize/value.rs:<{t} as DeserializeValue>::{{type_check,deserialize}}"])
